@@ -105,6 +105,8 @@ class ExecMixin:
                 sv = self.typed(st, t, ty)
                 st.assume(z3.Implies(smt.is_ref(t), Val.r(t) < st.alloc))
                 st.locals[k[1:]] = sv
+        for g in self.con.ghost.get("counters", ()):
+            st.locals["ghost_" + g] = sv_int(0)
         if self.con.exact_self_class and "self" in st.locals:
             cls = self.resolve_class_name(self.con.self_class or self.ext.class_name)
             st.assume(smt.CLS[Val.r(st.locals["self"].t)] == self.classes.cid(cls))
@@ -368,6 +370,16 @@ class ExecMixin:
                     names.add(n.id)
         return names
 
+    def ghost_names(self, stmts):
+        out = set()
+        for s in stmts:
+            for n in ast.walk(s):
+                if isinstance(n, ast.Call):
+                    spec = self.con.opaque.get(ast.unparse(n.func))
+                    if spec and spec.get("counter"):
+                        out.add("ghost_" + spec["counter"])
+        return out
+
     def written_fields(self, stmts):
         """Syntactic over-approximation of heap arrays a loop body may write."""
         fields = set()
@@ -434,7 +446,7 @@ class ExecMixin:
         for n in names:
             if n in st.locals:
                 t = smt.fresh(f"hv.{n}")
-                if n.startswith("_k") and n[2:].isdigit():
+                if (n.startswith("_k") and n[2:].isdigit()) or n.startswith("ghost_"):
                     st.assume(smt.is_int(t))
                     st.locals[n] = SV(t, "int")
                 else:
@@ -482,7 +494,7 @@ class ExecMixin:
     def cut_loop(self, s, st, spec, k, test, body, pre_iter, loopvars=None, dispatch=None):
         """Invariant cut: assert inv; havoc; assume inv; one arbitrary iteration; exit path."""
         outs = []
-        names = self.assigned_names(body) | set(loopvars or [])
+        names = self.assigned_names(body) | set(loopvars or []) | self.ghost_names(body)
         fields = self.havoc_fields(spec.modifies) if spec.modifies is not None else self.written_fields(body)
         # 1. invariant holds on entry
         for inv in spec.inv:
